@@ -28,7 +28,7 @@ import sys
 from fractions import Fraction
 
 sys.path.insert(0, os.path.dirname(os.path.abspath(__file__)))
-from cexpr import strip_comments, TranslateError, parse_expr, match_braces
+from cexpr import strip_comments, TranslateError, parse_expr, match_braces, find_function_body
 
 REPO = sys.argv[1] if len(sys.argv) > 1 else '/repo'
 OUT = os.path.join(os.path.dirname(os.path.abspath(__file__)), '..', 'coq', 'gen', 'StencilGen.v')
@@ -200,6 +200,8 @@ def conv(e, cx, want):
                 return 'nr'
             if fn == 'ntheta' and not e[2]:
                 return 'nth'
+            if fn == 'numberSmootherCircles' and not e[2]:
+                return 'nsc'
             if fn == 'wrapThetaIndex' and len(e[2]) == 1:
                 return '(wrapT nth %s)' % conv(e[2][0], cx, 'int')
         raise TranslateError('not an integer expression: %r' % (e,))
@@ -218,6 +220,17 @@ def conv(e, cx, want):
         if n in cx.own1:
             return '(%s i)' % cx.own1[n]
         raise TranslateError('unknown real identifier %s' % n)
+    if k == 'cond':
+        return '(if %s then %s else %s)' % (conv(e[1], cx, 'bool'), conv(e[2], cx, 'real'), conv(e[3], cx, 'real'))
+    if k == 'call' and e[1][0] == 'mem' and e[1][1] == ('id', 'domain_geometry_') and e[1][2] in ('dFx_dr', 'dFy_dr', 'dFx_dt', 'dFy_dt'):
+        # only the node's own evaluation point is accepted: (r, theta, sin_theta, cos_theta) bound to grid.radius(i_r), grid.theta(i_theta), caches[i_theta]
+        want = [('r', '(rad i)'), ('theta', '(thetaf j)'), ('sin_theta', '(sin_cache j)'), ('cos_theta', '(cos_cache j)')]
+        if len(e[2]) != 4:
+            raise TranslateError('geometry call with %d arguments' % len(e[2]))
+        for a, (nm, val) in zip(e[2], want):
+            if a != ('id', nm) or cx.reals.get(nm + '@def') != val:
+                raise TranslateError('geometry call %s is not evaluated at the node itself: %r' % (e[1][2], a))
+        return '(%s i j)' % e[1][2]
     if k == 'un' and e[1] == '-':
         return '(- %s)' % conv(e[2], cx, 'real')
     if k == 'bin' and e[1] in '+-*/':
@@ -241,6 +254,8 @@ def conv(e, cx, want):
             return '(k (wrapT nth %s))' % a
         if fn == 'radius':
             return '(rad %s)' % a
+        if fn == 'theta':
+            return '(thetaf %s)' % a
     raise TranslateError('not a real expression: %r' % (e,))
 
 
@@ -261,6 +276,7 @@ def emit_block(stmts, cx, ind):
         if ty == 'double':
             val = conv(ast, cx, 'real')
             cx.reals[name] = name
+            cx.reals[name + '@def'] = val
             cx.ints.pop(name, None)
             body = emit_block(rest, cx, ind)
             cx.ints, cx.reals, cx.nodes = saved
@@ -337,6 +353,64 @@ def give_call_sites(src):
     return calls
 
 
+def innermost_loops(body):
+    """[(outer header, inner header, inner body)] for the doubly nested for loops of a function body"""
+    out = []
+    for m in re.finditer(r'\bfor\s*\(', body):
+        hdr = match_braces(body, m.end() - 1, '(', ')')
+        j = skip_ws(body, m.end() + len(hdr) + 1)
+        if body[j] != '{':
+            raise TranslateError('for without a braced body')
+        blk = match_braces(body, j)
+        inner = list(re.finditer(r'\bfor\s*\(', blk))
+        if len(inner) != 1:
+            continue
+        im = inner[0]
+        ihdr = match_braces(blk, im.end() - 1, '(', ')')
+        ij = skip_ws(blk, im.end() + len(ihdr) + 1)
+        iblk = match_braces(blk, ij)
+        if re.search(r'\bfor\s*\(', iblk):
+            continue
+        pre = blk[:im.start()]
+        post = blk[ij + len(iblk) + 2:]
+        if post.strip():
+            raise TranslateError('statements after the inner loop')
+        out.append((' '.join(hdr.split()), ' '.join(ihdr.split()), pre, iblk))
+    return out
+
+
+LOOP_RE = re.compile(r'int (i_r|i_theta) = (.+?); (i_r|i_theta) < (.+?); (i_r|i_theta)\+\+$')
+
+
+def loop_range(hdr, cx):
+    m = LOOP_RE.match(hdr)
+    if not m or len({m.group(1), m.group(3), m.group(5)}) != 1:
+        raise TranslateError('loop header outside the grammar: %s' % hdr)
+    return m.group(1), conv(parse_expr(m.group(2)), cx, 'int'), conv(parse_expr(m.group(4)), cx, 'int')
+
+
+def gen_rhs(src):
+    body = find_function_body(strip_comments(src), r'void\s+GMGPolar::discretize_rhs_f\s*\(')
+    loops = innermost_loops(body)
+    if len(loops) != 4:
+        raise TranslateError('discretize_rhs_f: expected 4 doubly nested loops, found %d' % len(loops))
+    res = []
+    for n, (oh, ih, pre, blk) in enumerate(loops):
+        cx = Ctx(arrays2={'rhs_f': 'rhs_f', 'detDF_cache': 'det'}, arrays1={'sin_theta_cache': 'sin_cache', 'cos_theta_cache': 'cos_cache'},
+                 own2={}, own1={}, int_names={'i_r': 'i', 'i_theta': 'j'}, real_names={},
+                 bools={'DirBC_Interior_': 'dirbc'})
+        cx.ints['grid.numberSmootherCircles()'] = 'nsc'
+        ov, olo, ohi = loop_range(oh, cx)
+        iv, ilo, ihi = loop_range(ih, cx)
+        if ov == iv:
+            raise TranslateError('nested loops over the same variable')
+        rng = {ov: (olo, ohi), iv: (ilo, ihi)}
+        dom = '((%s <=? i) && (i <? %s) && (%s <=? j) && (j <? %s))%%Z' % (rng['i_r'][0], rng['i_r'][1], rng['i_theta'][0], rng['i_theta'][1])
+        stmts = parse_block(pre) + parse_block(blk)
+        res.append((dom, emit_block(stmts, cx, 4), oh, ih))
+    return res
+
+
 HEADER = '''(* GENERATED by translate/t3_stencil.py from
      %s
    DO NOT EDIT: rewritten from /repo's working tree on every run.
@@ -355,8 +429,9 @@ Definition wrapT (n x : Z) : Z := x mod n.
 Section StencilGen.
   Context {S : Sc}.
   Local Open Scope sc_scope.
-  Variable nr nth : Z.
-  Variable h k rad : Z -> S.
+  Variable nr nth nsc : Z.
+  Variable h k rad thetaf sin_cache cos_cache : Z -> S.
+  Variable dFx_dr dFy_dr dFx_dt dFy_dt : Z -> Z -> S.
   Variable arr att art det : Z -> Z -> S.
   Variable beta : Z -> S.
   Variable dirbc : bool.
@@ -368,12 +443,14 @@ def main():
     files = {
         'take': os.path.join(REPO, 'src/Residual/ResidualTake/applyResidualTake.cpp'),
         'give': os.path.join(REPO, 'src/Residual/ResidualGive/applyAGive.cpp'),
+        'rhs': os.path.join(REPO, 'src/GMGPolar/build_rhs_f.cpp'),
     }
     take_src = open(files['take']).read()
     give_src = open(files['give']).read()
     try:
         take = gen_take(take_src)
         give = gen_give(give_src)
+        rhs = gen_rhs(open(files['rhs']).read())
     except TranslateError as ex:
         # leave a file that does not compile: the tie is then reported as broken, with the reason
         with open(OUT, 'w') as f:
@@ -383,6 +460,11 @@ def main():
     out = HEADER % '\n     '.join(os.path.relpath(p, REPO) for p in files.values())
     out += '\n  (* NODE_APPLY_RESIDUAL_TAKE *)\n  Definition gen_resid_take (rhs x : Z -> Z -> S) (i j : Z) : list gwrite :=\n    %s.\n' % take
     out += '\n  (* NODE_APPLY_A_GIVE *)\n  Definition gen_apply_a_give (x : Z -> Z -> S) (i j : Z) : list gwrite :=\n    %s.\n' % give
+    names = ['cached_circle', 'cached_radial', 'uncached_circle', 'uncached_radial']
+    for nm, (dom, term, oh, ih) in zip(names, rhs):
+        out += '\n  (* discretize_rhs_f, loop nest  for (%s) for (%s) *)\n' % (oh, ih)
+        out += '  Definition gen_rhs_%s_visits (i j : Z) : bool := %s.\n' % (nm, dom)
+        out += '  Definition gen_rhs_%s (rhs_f : Z -> Z -> S) (i j : Z) : list gwrite :=\n    %s.\n' % (nm, term)
     out += 'End StencilGen.\n'
     with open(OUT, 'w') as f:
         f.write(out)
